@@ -8,8 +8,8 @@ both bases), all fail-closed:
   * target `local1d` (param mode, see NUM_DOC of the translator):
       TrapezoidalGrid1D.level_to_num_points_1d, .weight_composite_trapezoidal, .get_1d_weight, and the inherited
       Grid1d.get_1D_level_weights seen from TrapezoidalGrid1D;  GaussGrid1D.level_to_num_points_1d;
-      ClenshawCurtisGrid1D.level_to_num_points_1d  (LejaGrid1D.level_to_num_points_1d is outside the subset of the shared
-      translator: a variable first assigned in both branches of an if);
+      ClenshawCurtisGrid1D.level_to_num_points_1d;  LejaGrid1D.level_to_num_points_with_boundary_1d / level_to_num_points_1d
+      (since the repair 28a24e9 inside the subset of the shared translator);
     the attributes read through self become parameters with the declared types;
   * DECLARED PARAMETER TYPES: these methods carry no annotations; `level` and `index` are declared `int` here (a typing
     precondition exactly like an annotation in the source; any other unannotated parameter is still rejected);
@@ -35,12 +35,13 @@ P.NUM_TARGETS[TARGET] = dict(
         dict(name='TrapezoidalGrid1D', mode='param',
              methods=['level_to_num_points_1d', 'weight_composite_trapezoidal', 'get_1d_weight', 'get_1D_level_weights'],
              attrs=ATTRS),
+        dict(name='LejaGrid1D', mode='param', methods=['level_to_num_points_with_boundary_1d', 'level_to_num_points_1d'], attrs=ATTRS),
         dict(name='GaussGrid1D', mode='param', methods=['level_to_num_points_1d'], attrs=ATTRS),
         dict(name='ClenshawCurtisGrid1D', mode='param', methods=['level_to_num_points_1d'], attrs=ATTRS),
     ],
     fuel={},
     # declared types of unannotated parameters: (method name, parameter) -> annotation
-    param_types={('level_to_num_points_1d', 'level'): 'int', ('weight_composite_trapezoidal', 'index'): 'int',
+    param_types={('level_to_num_points_1d', 'level'): 'int', ('level_to_num_points_with_boundary_1d', 'level'): 'int', ('weight_composite_trapezoidal', 'index'): 'int',
                  ('get_1d_weight', 'index'): 'int'})
 
 _BaseTr = P.NumTranslator
